@@ -34,8 +34,11 @@ type PubSession struct {
 	disposeOnce sync.Once
 	udpConn     *nazanet.UdpConnection
 	listener    net.Listener
-	tcpConn     net.Conn
-	sessionStat base.BasicSessionStat
+	// tcpConn is set by the accept loop (RunLoop goroutine) and closed by dispose (any goroutine)
+	tcpConnMu       sync.Mutex
+	tcpConn         net.Conn
+	tcpConnDisposed bool
+	sessionStat     base.BasicSessionStat
 }
 
 func NewPubSession() *PubSession {
@@ -206,13 +209,21 @@ func (session *PubSession) runLoopTcp() error {
 			return err
 		}
 
-		if session.tcpConn != nil {
+		session.tcpConnMu.Lock()
+		if session.tcpConnDisposed {
+			// disposed while the connection was being accepted: nobody else would close it
+			session.tcpConnMu.Unlock()
+			_ = conn.Close()
+			continue
+		}
+		prev := session.tcpConn
+		session.tcpConn = conn
+		session.tcpConnMu.Unlock()
+		if prev != nil {
 			nazalog.Warnf("[%s] tcp conn already exist, close the prev. err=%+v", session.UniqueKey(), err)
-			session.tcpConn.Close()
+			prev.Close()
 			// TODO(chef): [fix] reset unpack 202209
 		}
-
-		session.tcpConn = conn
 
 		go func() {
 			lb := make([]byte, 2)
@@ -256,11 +267,15 @@ func (session *PubSession) dispose(err error) error {
 			if session.listener != nil {
 				_ = session.listener.Close()
 			}
-			if session.tcpConn == nil {
+			session.tcpConnMu.Lock()
+			session.tcpConnDisposed = true
+			tcpConn := session.tcpConn
+			session.tcpConnMu.Unlock()
+			if tcpConn == nil {
 				retErr = base.ErrSessionNotStarted
 				return
 			}
-			retErr = session.tcpConn.Close()
+			retErr = tcpConn.Close()
 		} else {
 			if session.udpConn == nil {
 				retErr = base.ErrSessionNotStarted
